@@ -3,7 +3,7 @@
     S = SlabSpec.v (flat n-d array), M = SlabModel.v (NCcoordck, NC_varoffset, NCvcmaxcontig, NCvario,
     NCsimplerecio, NCgenio, hdf_xdr_NCvdata; boundary conditions regenerated into gen/Gen_Slab.v). *)
 From Coq Require Import ZArith List Bool.
-Require Import H4.SlabSpec H4.gen.Gen_Slab H4.SlabModel H4.SlabProofs.
+Require Import H4.SlabSpec H4.gen.Gen_Slab H4.SlabModel H4.SlabProofs H4.SlabRefine.
 Import ListNotations.
 Local Open Scope Z_scope.
 
@@ -144,13 +144,39 @@ Theorem unlimited_growth : forall m coords rc,
 Proof. exact unlimited_growth_lemma. Qed.
 Print Assumptions unlimited_growth.
 
-(** NOT PROVED (full statement kept visible):
-      slab_refines_array : forall history h of OpWrite/OpRead/OpInfo/OpReopen in fill mode,
-        every value/return/extent in m_run (m_init sh u nt) h agrees with s_run (s_init sh u (default_fill nt)) h
-        wherever the specification gives ROk/RFail and a defined cell.
-    It needs the two missing inductions named above plus a store/array simulation invariant
-    (nth i (m_store m) = nth i (a_cells a) for i < extent).  Today it rests on the three-way correspondence
-    R ~ M ~ S run by checks/C03.py on every generated history. *)
+(** The implementation model refines the array specification on whole operation histories.
+    For every fixed-size dataset of rank >= 1 with extents >= 1 and every supported number type, and for EVERY
+    history of SDsetfillmode (other than SD_NOFILL), SDsetfillvalue (before or after the first write),
+    SDsetblocksize, SDwritedata and SDreaddata with stride NULL -- valid requests, requests reaching outside the
+    shape (with their partial writes), empty / negative counts --, SDgetinfo/SDgetfillvalue and SDend+SDstart:
+    the model's run and the specification's run agree operation by operation:
+      - wherever the specification says ROk the model returns 0, wherever it says RFail the model returns -1;
+      - every cell the specification defines in a successful read (a written value, or the fill value for a cell
+        never written) is the cell the model reads;
+      - every extent lies in the specification's interval, the fill-value attribute is the same.
+    [op_dom] is exactly this domain (argument vectors of the dataset's rank, as many values as selected cells);
+    [out_sim] is the agreement of one operation's outputs.  The proof is a simulation: [sim a m] relates the array
+    to the element content (all fill values while the element is still empty), is established by SDcreate
+    (sim_init) and preserved by every operation (sim_step: sim_write, sim_read, ...), then lifted to histories by
+    induction (run_sim).  Outside this theorem (correspondence only): stride arrays (NCgenio), unlimited
+    datasets, no-fill mode (outside the model as well), rank 0. *)
+Theorem sd_refines_array : forall shape nt ops,
+  (0 < length shape)%nat -> Forall (fun d => 1 <= d) shape ->
+  (exists s, nt_size nt = Some s /\ 0 < s) ->
+  Forall (op_dom (length shape)) ops ->
+  Forall2 out_sim (s_run (s_init shape false (default_fill nt)) ops) (m_run (m_init shape false nt) ops).
+Proof. exact sd_refines_array_lemma. Qed.
+Print Assumptions sd_refines_array.
+
+(** the simulation relation is established by SDcreate and preserved by every operation of the domain *)
+Theorem sim_invariant :
+  (forall shape nt, (0 < length shape)%nat -> Forall (fun d => 1 <= d) shape ->
+     (exists s, nt_size nt = Some s /\ 0 < s) ->
+     sim (s_init shape false (default_fill nt)) (m_init shape false nt)) /\
+  (forall a m o, sim a m -> op_dom (length (m_shape m)) o ->
+     sim (fst (s_step a o)) (fst (m_step m o)) /\ out_sim (snd (s_step a o)) (snd (m_step m o))).
+Proof. split. exact sim_init. exact sim_step. Qed.
+Print Assumptions sim_invariant.
 
 (* ---- non-vacuity: the hypotheses are met by concrete, non-trivial states -------------------- *)
 Definition ex_m : mstate := m_init [3; 4; 5] false DFNT_INT16.
@@ -219,6 +245,26 @@ Example ex_oob_strided :
   snd (sd_write (m_init [3; 4] false DFNT_UINT8) true [0; 1] [2; 2] [2; 3] [1;2;3;4;5;6]) =
     MRet (-1) [TWrite 0 1; TWrite 1 1; TWrite 2 10; TWrite 3 1].
 Proof. vm_compute. split; reflexivity. Qed.
+
+(** sd_refines_array is not vacuous: a history of its domain on a 3x4 uint8 dataset -- fill value set, a valid
+    write, a write reaching outside the shape (partial write), an empty write, a fill value set after the first
+    write, reads, reopen -- and the two runs it relates *)
+Example ex_refines_domain :
+  let ops := [OpFillv 9; OpWrite false [1; 1] [] [2; 2] [11; 12; 13; 14];
+              OpWrite false [1; 2] [] [3; 2] [21; 22; 23; 24; 25; 26];
+              OpWrite false [0; 0] [] [0; 1] [];
+              OpFillv 5; OpRead false [0; 0] [] [3; 4]; OpReopen; OpInfo; OpRead false [2; 0] [] [2; 1]] in
+  Forall (op_dom 2) ops /\ (exists s, nt_size DFNT_UINT8 = Some s /\ 0 < s) /\
+  s_run (s_init [3; 4] false (default_fill DFNT_UINT8)) ops =
+    [SNone; SRet ROk; SRet RFail; SRet RAny; SNone;
+     SRead ROk [Undef; Undef; Undef; Undef; Undef; Val 11; Undef; Undef; Undef; Val 13; Undef; Undef];
+     SNone; SInfo [(3, 3); (4, 4)] (Some 5); SRead RFail []] /\
+  m_run (m_init [3; 4] false DFNT_UINT8) ops =
+    [MNone; MRet 0 [TWrite 0 5; TWrite 5 2; TWrite 7 5; TWrite 9 2]; MRet (-1) [TWrite 6 2; TWrite 10 2];
+     MRet 0 []; MNone;
+     MRead 0 [Val 9; Val 9; Val 9; Val 9; Val 9; Val 11; Val 21; Val 22; Val 9; Val 13; Val 23; Val 24] [TRead 0 12];
+     MNone; MInfo [3; 4] (Some 5); MRead (-1) [Val 9] [TRead 8 1]].
+Proof. vm_compute. repeat split; repeat constructor; try discriminate. all: try (eexists; split; reflexivity). Qed.
 
 (** the whole model and the specification on one history: strided write, out-of-range read, full read *)
 Example ex_history :
